@@ -48,7 +48,8 @@ WORKERS = 2
 ALL_KEEPS = '{"TT", "FF", "TF", "FT"}'
 FWD_DEFAULT = dict(MaxW=2, Keeps='{"TT"}', AllowFail='TRUE',
                    AllowReset='TRUE', AllowCut='TRUE', AllowLsn='TRUE',
-                   FixLost='FALSE', FixCross='FALSE', EarlyBias='FALSE',
+                   FixLost='FALSE', FixCross='FALSE', Win=0,
+                   AdjustOnlyOpen='FALSE', EarlyBias='FALSE',
                    DropEarly='FALSE',
                    NoEofRelay='FALSE')
 SOCKS_DEFAULT = dict(MaxIn=30, MaxName=255, Runs='{254, 255, 256, 300}',
@@ -69,7 +70,8 @@ DEFAULTS = {'Forward': FWD_DEFAULT, 'Socks': SOCKS_DEFAULT,
 LSN_INVS = ['Routing', 'ClosedRefuses', 'RegistryExact', 'AddressesDistinct']
 
 FWD_INVS_ASIS = ['TypeOK', 'RelayFIFO', 'Complete', 'HalfClose', 'Teardown',
-                 'FailureClean', 'NoListenerLeft', 'NoLateChanEof']
+                 'FailureClean', 'NoListenerLeft', 'NoLateChanEof', 'NoStall',
+                 'NoProtocolError']
 FWD_INVS_ALL = FWD_INVS_ASIS + ['CloseBoth', 'Released']
 SOCKS_INVS = ['TypeOK', 'NoRaise', 'ClosedIsFinal', 'Progress',
               'ConnectWellFormed', 'NoReplyUnlessAsked', 'OutOnlyWhenConnected']
@@ -362,13 +364,33 @@ def main(ctx):
     maxw = 2 if quick else 3
     jobs = []
     jobs.append(Job('fwd required rules', 'Forward',
-                    dict(MaxW=maxw, Keeps=ALL_KEEPS, FixLost='TRUE',
-                         FixCross='TRUE'), FWD_INVS_ALL, workers=4))
+                    dict(MaxW=maxw, FixLost='TRUE', FixCross='TRUE',
+                         Keeps='{"TT", "FF"}' if quick else ALL_KEEPS),
+                    FWD_INVS_ALL, workers=4))
     if not (fix_lost and fix_cross):
         holds = FWD_INVS_ASIS + (['CloseBoth'] if fix_lost else [])
         jobs.append(Job('fwd code as it is', 'Forward',
                         dict(asis, MaxW=maxw, Keeps=ALL_KEEPS), holds,
                         workers=4))
+    # flow control in play: a channel window of Win data units (one unit = one
+    # maximum packet), WINDOW_ADJUST in every phase
+    fixed = dict(FixLost='TRUE', FixCross='TRUE')
+    jobs.append(Job('fwd rules, window 2', 'Forward',
+                    dict(fixed, Win=2, MaxW=3,
+                         Keeps='{"TT"}' if quick else ALL_KEEPS),
+                    FWD_INVS_ALL, workers=4))
+    jobs.append(Job('fwd sensitivity AdjustOnlyOpen (expected '
+                    'NoProtocolError)', 'Forward',
+                    dict(fixed, Win=2, MaxW=3, AdjustOnlyOpen='TRUE',
+                         AllowFail='FALSE', AllowLsn='FALSE'),
+                    ['NoProtocolError'], expect='NoProtocolError'))
+    if not quick:
+        jobs.append(Job('fwd rules, window 3', 'Forward',
+                        dict(fixed, Win=3, MaxW=4, AllowFail='FALSE',
+                             AllowLsn='FALSE'), FWD_INVS_ALL, workers=4))
+        jobs.append(Job('fwd witness close_pending deadlock (ChannelsEnd)',
+                        'Forward', dict(fixed, Win=2, MaxW=3),
+                        ['ChannelsEnd'], expect='ChannelsEnd'))
     # the two teardown rules are needed: without them the properties fail
     jobs.append(Job('fwd without F11 rule (expected CloseBoth)', 'Forward',
                     dict(FixLost='FALSE', FixCross='TRUE'), ['CloseBoth'],
@@ -445,7 +467,7 @@ def main(ctx):
         jobs.append(Job('perm witness NeverServed', 'ForwardPerm', {},
                         ['NeverServed'], expect='NeverServed', workers=1))
     # generators: behaviours of the model of the code as it is
-    n = 70 if quick else 500
+    n = 56 if quick else 500
     sims = [
         Job('sim relay', 'Forward',
             dict(asis, MaxW=3, Keeps=ALL_KEEPS, AllowCut='FALSE',
@@ -460,6 +482,18 @@ def main(ctx):
             dict(asis, MaxW=3, Keeps=ALL_KEEPS, AllowFail='FALSE',
                  AllowReset='FALSE', AllowCut='FALSE', AllowLsn='FALSE'),
             simulate=n, depth=30, view=False)]
+    wsims = [
+        Job('sim window 2', 'Forward',
+            dict(asis, Win=2, MaxW=4, Keeps=ALL_KEEPS, AllowCut='FALSE',
+                 AllowLsn='FALSE'), simulate=n // 2, depth=34, view=False),
+        Job('sim window 3 flow', 'Forward',
+            dict(asis, Win=3, MaxW=5, Keeps=ALL_KEEPS, AllowFail='FALSE',
+                 AllowReset='FALSE', AllowCut='FALSE', AllowLsn='FALSE'),
+            simulate=n, depth=44, view=False),
+        Job('sim window 1', 'Forward',
+            dict(asis, Win=1, MaxW=3, Keeps='{"TT"}', AllowFail='FALSE',
+                 AllowCut='FALSE', AllowLsn='FALSE'),
+            simulate=n // 2, depth=34, view=False)]
     nl = 40 if quick else 400
     lsims = [
         Job('lsn sim all kinds', 'Listeners',
@@ -480,7 +514,7 @@ def main(ctx):
         xsims.append(Job('x11 sim refused', 'X11',
                          dict(MaxX=3, AtomicOpen='TRUE', ServerAllows='FALSE'),
                          simulate=40, depth=10, view=False))
-    run_jobs(ctx, jobs + sims + lsims + xsims, parallel=6)
+    run_jobs(ctx, jobs + sims + wsims + lsims + xsims, parallel=6)
     jobmap = {j.name: j for j in jobs + sims}
 
     phase('tlc')
@@ -521,6 +555,43 @@ def main(ctx):
                       {'kind': 'forward-labels', 'world': kw,
                        'labels': r['script']}, 'fine')
     ctx.traces_validated(total)
+    # the same with flow control in play (window of Win units, every unit one
+    # CHANNEL_DATA message, WINDOW_ADJUST messages delivered like the others)
+    nwin = nadj = 0
+    seen_w = set()
+    windowed = []
+    for j in wsims:
+        win = int(j.consts['Win'])
+        for tr in j.traces:
+            if not tr:
+                continue
+            kl, kr = tr[0][1]['keep']['L'], tr[0][1]['keep']['R']
+            key = (win, kl, kr, tuple(labels_of(tr)))
+            if key in seen_w:
+                continue
+            seen_w.add(key)
+            windowed.append((kl, kr, win, tr))
+            kind = F.FINE_KINDS[nwin % len(F.FINE_KINDS)]
+            kw = dict(kind=kind, keep_l=kl, keep_r=kr, window=win,
+                      finish=['close', 'cutc', 'cuts'][nwin % 3])
+            r = F.replay(tr, **kw)
+            nwin += 1
+            adj = any(m['t'] == 'adjust' for _, S in tr
+                      for m in S['qOA'] + S['qAO'])
+            nadj += adj
+            ctx.count(('window', win, kind, kl, kr, compact(r['script'])),
+                      nontrivial=adj)
+            if nwin == 9:
+                ctx.sample({'module': 'Forward', 'mode': 'fine, window',
+                            **kw, 'schedule': compact(r['script'])})
+            judge_forward(ctx, finds, r, {'kind': 'forward-labels',
+                                          'world': kw,
+                                          'labels': r['script']}, 'window')
+    ctx.require(nadj >= 40, f'only {nadj} windowed behaviours with a '
+                'WINDOW_ADJUST in flight')
+    ctx.traces_validated(nwin)
+    ctx.coverage['windowed_behaviours'] = nwin
+    ctx.coverage['windowed_behaviours_with_adjust'] = nadj
     nreg = 0
     for name, labels in REGRESSIONS:
         for kind in F.FINE_KINDS:
@@ -568,17 +639,23 @@ def main(ctx):
     rnd.shuffle(coarse_src)
     ncoarse = 0
     seen_c = set()
-    variants = [((1, 70000, 300), None), ((3, 17, 5), 1), ((40000, 1, 66000), 4093)]
-    for idx, (kl, kr, _, tr) in enumerate(coarse_src[:(260 if quick else 2500)]):
+    variants = [((1, 70000, 300), None, None), ((3, 17, 5), 1, None),
+                ((40000, 1, 66000), 4093, None),
+                ((9000, 70000, 300), None, (4096, 1024)),
+                ((20000, 700, 33000), 1500, (1000, 300))]
+    coarse_src = [(kl, kr, 0, tr) for kl, kr, _, tr in coarse_src]
+    coarse_src += [(kl, kr, 0, tr) for kl, kr, _, tr in windowed]
+    rnd.shuffle(coarse_src)
+    for idx, (kl, kr, _, tr) in enumerate(coarse_src[:(320 if quick else 3000)]):
         labels = [l for l in labels_of(tr) if l[0] in 'WECX' or l[0] == 'LSN']
         kind = all_kinds[idx % len(all_kinds)]
-        sizes, chunk = variants[idx % len(variants)]
-        key = (kind, kl, kr, tuple(labels), sizes)
+        sizes, chunk, window = variants[idx % len(variants)]
+        key = (kind, kl, kr, tuple(labels), sizes, window)
         if key in seen_c or len(labels) < 2:
             continue
         seen_c.add(key)
         kw = dict(kind=kind, keep_l=kl, keep_r=kr, sizes=sizes, chunk=chunk,
-                  finish=['close', 'cutc', 'cuts'][idx % 3])
+                  window=window, finish=['close', 'cutc', 'cuts'][idx % 3])
         r = F.replay_coarse(labels, **kw)
         ncoarse += 1
         ctx.count(('coarse', kind, kl, kr, compact(r['script']), sizes))
@@ -601,6 +678,25 @@ def main(ctx):
                                           dict(kind=kind, paused=paused,
                                                chunk=chunk, nbytes=nbytes)},
                           'bulk')
+    # several windows in the direction that keeps flowing after the other
+    # was half-closed, with the half-closed end slow to read
+    flow_windows = [(4096, 1024), (1000, 300), (32768, 32768)]
+    nflow = 0
+    for kind in all_kinds:
+        for half in 'LR':
+            if quick and kind in ('socks4', 'socks5h', 'socks5v6',
+                                  'direct_unix') and half == 'R':
+                continue
+            window = flow_windows[nflow % len(flow_windows)]
+            kw = dict(kind=kind, window=window, half=half,
+                      slow=nflow % 4 != 3,
+                      chunk=None if nflow % 2 else 777)
+            r = F.flow_case(**kw)
+            nflow += 1
+            ctx.count(('flow', kind, half, window))
+            judge_forward(ctx, finds, r, {'kind': 'flow', 'world': kw},
+                          'flow')
+    ctx.traces_validated(nflow)
     for kind in F.FINE_KINDS:
         r = F.isolation_case(kind)
         ctx.count(('isolation', kind))
@@ -951,6 +1047,27 @@ def trace_validation(ctx, F, finds, quick, asis):
                 early.append(tr)        # early data flushed at confirmation
             traces.append(tr)
             owner.append(args)
+    # the same natural scheduling with small channel windows (flow control,
+    # WINDOW_ADJUST, paused relays): judged by the monitors on the recording
+    # only - Forward.tla's window is counted in packets, not bytes
+    for i in range(18 if quick else 300):
+        args = dict(seed=ctx.seed * 104729 + i,
+                    kind=F.NAT_KINDS[i % len(F.NAT_KINDS)],
+                    nconn=2 if i % 3 == 2 else 1,
+                    mode=TRACE_MODES[(i // 2) % len(TRACE_MODES)] + ' big',
+                    window=[(4096, 1024), (1000, 300), (700, 700)][i % 3])
+        r = F.record_natural(**args)
+        ctx.count(('natural-window', args['kind'], args['nconn'], i))
+        rp = {'kind': 'natural', **args}
+        for clause, detail in r['l1']:
+            finds.add('ForwardTrace', clause, 'natural-window',
+                      f'{detail} (recorded run {args})', rp, 1)
+        for e in r['loop_exceptions']:
+            finds.add('ForwardTrace', 'Exception', e[:60],
+                      f'exception reached the event loop: {e} '
+                      f'(recorded run {args})', rp, 1)
+        if r['outcome'] != 'ok':
+            ctx.divergence(f'natural run {args}: {r["outcome"]}')
     if traces:
         big = max(traces, key=lambda t: len(t['ev']))
         ctx.notes.append({'recorded_trace_sample': big['ev'][:6]})
@@ -1057,10 +1174,18 @@ def replay_one(ctx, F, finds):
         for clause, detail, cause in r['l1']:
             finds.add('X11', clause, cause, detail, rp, 1)
     elif kind == 'natural':
-        args = {k: rp[k] for k in ('seed', 'kind', 'nconn', 'mode')}
+        args = {k: rp[k] for k in ('seed', 'kind', 'nconn', 'mode', 'window')
+                if k in rp}
+        if args.get('window'):
+            args['window'] = tuple(args['window'])
         r = F.record_natural(**args)
         for clause, detail in r['l1']:
             finds.add('ForwardTrace', clause, 'natural', detail, rp, 1)
+    elif kind == 'flow':
+        kw = dict(rp['world'])
+        kw['window'] = tuple(kw['window'])
+        r = F.flow_case(**kw)
+        judge_forward(ctx, finds, r, rp, 'replay')
     elif kind == 'listeners':
         labels = [tuple(l) for l in rp['labels']]
         r = F.replay_listeners(labels, nslots=4,
